@@ -493,16 +493,30 @@ func runC17Term(c *Ctx) {
 		c.bad("(*globValidator).validateNext|stops at EOF", vn.Pos(), "can return true at EOF: validate() would loop forever")
 	}
 	// the character-class loop: its body starts with scan.Next and it returns at EOF
-	loopOK := false
-	for _, b := range vn.Blocks {
-		if !blockInCycle(b) {
+	// (the loop may live in validateNext itself or in a method of the validator that validateNext calls for the `[` case;
+	// every loop of those functions has to consume)
+	loopOK, loops := true, 0
+	for _, f := range p.withHelpers(vn, 1) {
+		if f != vn && (f.Signature.Recv() == nil || pointeeName(f.Signature.Recv().Type()) != "globValidator") {
 			continue
 		}
-		for _, in := range b.Instrs {
-			if call, ok := in.(*ssa.Call); ok && calleeFullName(&call.Call) == "(*text/scanner.Scanner).Next" {
-				loopOK = true
+		for _, h := range loopHeaders(f) {
+			loops++
+			consumes := false
+			for b := range naturalLoop(h) {
+				for _, in := range b.Instrs {
+					if call, ok := in.(*ssa.Call); ok && calleeFullName(&call.Call) == "(*text/scanner.Scanner).Next" {
+						consumes = true
+					}
+				}
+			}
+			if !consumes {
+				loopOK = false
 			}
 		}
+	}
+	if loops == 0 {
+		loopOK = false
 	}
 	if loopOK {
 		c.ok("(*globValidator).validateNext|class loop consumes", vn.Pos(), "the [...] loop consumes a character per iteration (EOF is a case that returns)")
